@@ -7,6 +7,7 @@ import (
 	"errors"
 	"fmt"
 	"io"
+	"runtime"
 	"strconv"
 	"strings"
 	"sync"
@@ -490,6 +491,7 @@ type ctx struct {
 	r           *common.Run
 	pki         *pki
 	teeNegFails int
+	sk          bool // features.go: a skipped required feature that became negotiable makes the list an error
 	rr          bool // features.go ORs Ready into a result that carries a new ReadWriter
 	rt          bool // features.go re-tests the masks of a cached feature when it is selected
 }
@@ -516,6 +518,21 @@ func (c *ctx) tlsConfig(explicit bool) *tls.Config {
 // exec runs one scenario on the real code.  base is the StartTLS feature value
 // to use (nil: a fresh one).
 func (c *ctx) exec(sc scenario, base *xmpp.StreamFeature) (res result) {
+	res = c.exec1(sc, base)
+	if res.stalled {
+		// A watchdog expired.  Keep the goroutine dump of the first such event for the
+		// evidence and try once more: only a stall that happens again is an observation
+		// (an overloaded machine must not look like a session that hangs).
+		c.r.Hist["watchdog-expired-then-retried"]++
+		again := c.exec1(sc, base)
+		if !again.stalled {
+			return again
+		}
+	}
+	return res
+}
+
+func (c *ctx) exec1(sc scenario, base *xmpp.StreamFeature) (res result) {
 	// an XML declaration is only legal at the very start of a document: a header that
 	// follows white space is spelled without one
 	prevW := false
@@ -673,6 +690,11 @@ func (c *ctx) exec(sc scenario, base *xmpp.StreamFeature) (res result) {
 	case !ok:
 		res.stalled = true
 		res.outcome = "STALL"
+		if len(c.r.Notes) < 2 {
+			buf := make([]byte, 1<<16)
+			buf = buf[:runtime.Stack(buf, true)]
+			c.r.Notes = append(c.r.Notes, "watchdog expired on "+sc.clearField()+" | "+sc.protField()+"; goroutines:\n"+string(buf))
+		}
 	case res.panicked != "":
 		res.outcome = "PANIC"
 	case err != nil:
